@@ -118,13 +118,30 @@ def weak_order(rng, n):
     return cls
 
 
+def average_ranks(cls, first=1):
+    """Fractional ranking of dense classes: a tie group gets the mean of the places it occupies (places counted from `first`):
+    [0, 0] -> [1.5, 1.5]; [0, 1, 1, 2] -> [1, 2.5, 2.5, 4].  Whole numbers stay ints, as a program would write them."""
+    n = len(cls)
+    out = [0] * n
+    place = first
+    for c in sorted(set(cls)):
+        members = [i for i in range(n) if cls[i] == c]
+        mean = (2 * place + len(members) - 1) / 2.0
+        for i in members:
+            out[i] = int(mean) if mean == int(mean) else mean
+        place += len(members)
+    return out
+
+
 def encode_order(rng, cls):
     """Encode dense classes as a ranks vector or a scores vector in one of many value styles.
 
     Returns (kwargs for rate, style).  Strictly increasing maps only, so the weak order is cls's."""
     n = len(cls)
     k = max(cls) + 1
-    style = rng.choice(["none?", "int", "int", "float", "mixed", "neg", "big", "bool?", "scores", "scores_f", "scores_neg", "frac", "bigint"])
+    style = rng.choice(["none?", "int", "int", "float", "mixed", "neg", "big", "bool?", "scores", "scores_f", "scores_neg", "frac", "bigint", "average"])
+    if style == "average":
+        return {"ranks": average_ranks(cls, rng.choice([1, 1, 0]))}, "average"
     if style == "frac" and k == n and n >= 3 and rng.random() < 0.6:
         j = 1 + rng.randrange(n - 2)
         d = rng.choice([-0.5, 0.5, -0.25])
@@ -1072,6 +1089,7 @@ def outcome_groups(sess, rng, count, kinds=KINDS):
         enc = rng.choice([("ranks", [0, 1], [0, 0], [1, 0]), ("ranks", [1.0, 2.0], [3, 3.0], [2, 1]),
                           ("scores", [5, 1], [2, 2], [0, 7]), ("ranks", [-1, 0], [0.0, 0], [4, 3]),
                           ("ranks", [False, True], [False, False], [True, False]), ("ranks", [False, True], [True, True], [True, False]),
+                          ("ranks", [1, 2], [1.5, 1.5], [2, 1]), ("ranks", [1, 2], [1.5, 1.5], [2, 1]), ("ranks", [0, 1], [0.5, 0.5], [1, 0]),
                           ("ranks", [_Place(1), _Place(2)], [_Place(2), _Place(2)], [_Place(3), _Place(1)]),
                           ("ranks", [_Seconds(9.5), _Seconds(11.0)], [_Seconds(9.5), _Seconds(9.5)], [_Seconds(12.0), 10.0])])
         sel, win, draw, loss = enc
@@ -1195,6 +1213,17 @@ def near_tie_ranks(sess, rng, count, kinds=KINDS):
             vals.append([(pick_mu(rng, beta), pick_sigma(rng, beta)) for _i in range(rng.randint(1, size))])
         rng.shuffle(vals)
         sess.predict("rank", mh, make_teams(mh, vals))
+        # two teams whose totals differ by less than the subtraction can see (the probabilities come out bit-equal or one ulp
+        # apart): whatever the probabilities are, the ranks must say the same
+        if _ % 12:
+            continue
+        sg = pick_sigma(rng, beta)
+        for (a, b) in [(0.0, 1e-18), (1e-18, 0.0), (0.25, 0.25 + 2.0 ** -54), (beta, beta * (1 + 2.0 ** -52)), (-1e-300, 1e-300),
+                       (3.0 * beta, math.nextafter(3.0 * beta, 100.0)), (0.0, 5e-324), (0.0, -0.0)]:
+            vals2 = [[(a, sg)], [(b, sg)]] if rng.random() < 0.6 else [[(a, sg), (1.0, sg)], [(1.0, sg), (b, sg)]]
+            for op in ("rank", "win"):
+                sess.predict(op, mh, make_teams(mh, vals2))
+            sess.predict("rank", mh, make_teams(mh, vals2 + [[(pick_mu(rng, beta), sg)]]))
 
 
 def model_groups(sess, rng, count):
@@ -1358,7 +1387,10 @@ def object_campaign(sess, rng, count, kinds=KINDS):
             sess.ordinal(a, z=3.0)
             sess.ordinal(a, z=2)
             sess.sort([b, a, mh.m.rating(a.mu, a.sigma)])
-        # copies
+        # copies - first of players nobody has looked at yet (not printed, hashed, compared or rated: nothing has read their id)
+        for _f in range(2):
+            sess.deepcopy(mh.m.rating(rng.choice(grid_mu), 2.0, rng.choice([None, "new"])), look="after")
+            sess.deepcopy([[mh.m.rating(1.5, 2.0)], [mh.m.create_rating([3.0, 1.0])]], look="after")
         sess.deepcopy(pool[0])
         nested = [[pool[0], pool[1]], [pool[2]]]
         sess.deepcopy(nested)
@@ -1512,6 +1544,7 @@ def malformed_campaign(sess, rng, count, kinds=KINDS, ops=("rate", "win", "draw"
         params.setdefault("tau", beta / 50.0)
         if params["tau"] == 0.0:
             params["tau"] = beta / 50.0
+        params["limit_sigma"] = (_ % 2 == 1)      # what a call does before it has looked at its arguments depends on the options
         shape = pick_shape(rng, 4, 2)
         n = len(shape)
         vals = random_vals(rng, shape, beta)
@@ -1535,6 +1568,10 @@ def malformed_campaign(sess, rng, count, kinds=KINDS, ops=("rate", "win", "draw"
                     t2 = _subst(teams, path, val)
                     if op == "rate":
                         kw = {"ranks": list(ranks0)} if rng.random() < 0.5 else {}
+                        if b % 3 == 0:
+                            kw["limit_sigma"] = True
+                        elif b % 7 == 0:
+                            kw["tau"] = 0.5 * beta
                         sess.rate(mh, t2, **kw)
                     else:
                         sess.predict(op, mh, t2)
@@ -1700,6 +1737,29 @@ def integer_grid(sess, rng, ops, kinds=KINDS):
             teams = make_teams(mh, vals)
             for op in ops:
                 sess.predict(op, mh, teams)
+
+
+def ordinal_tie_grid(sess, rng, ops, kinds=KINDS):
+    """Stratified: for every model, games whose players have ordinals mu - 3 sigma equal to the last bit while (mu, sigma) differ -
+    1v1, 2v2 (each team a pair of twins), three singles, and twins as team mates facing an ordinary team - in both listings.
+    Ratings order by the ordinal and are equal by (mu, sigma): min / max / sorted / == on rating objects part ways exactly here."""
+    twins = [[(30.0, 10.0), (15.0, 5.0)], [(30.0, 6.0), (18.0, 2.0)], [(25.0, 5.0), (28.0, 6.0)], [(0.0, 1.0), (3.0, 2.0), (-1.5, 0.5)]]
+    for kind in kinds:
+        sess.reset()
+        mh = sess.model(kind)
+        for tw in twins:
+            games = [[[tw[0]], [tw[1]]], [[tw[1]], [tw[0]]], [[tw[0], tw[1]], [(20.0, 4.0), (22.0, 3.0)]], [[(20.0, 4.0)], [tw[1], tw[0]]]]
+            if len(tw) >= 3:
+                games.append([[tw[0]], [tw[1]], [tw[2]]])
+                games.append([[tw[2], tw[0], tw[1]], [(1.0, 1.0)]])
+            else:
+                games.append([[tw[0]], [(24.0, 7.0)], [tw[1]]])
+            for vals in games:
+                for op in ops:
+                    if op == "rate":
+                        sess.rate(mh, make_teams(mh, vals), ranks=random_perm(rng, len(vals)))
+                    else:
+                        sess.predict(op, mh, make_teams(mh, vals))
 
 
 def integer_grid_rate(sess, rng, kinds=KINDS):
